@@ -1,6 +1,6 @@
 (* C22: deadlines and cancellation propagate to both ends.
    Theorems only; each is closed by [exact] of a lemma from proof/Deadline_proofs.v.
-   Model: coq/model/Deadline.v (a table of the five client blocking points, each a select
+   Model: coq/model/Deadline.v (a table of the six client blocking points, each a select
    that includes the RPC context, and the server's deadline = arrival + decodeTimeout(
    EncodeDuration(remaining)) using the C07 model Timeout.v).  PARTIAL by design: "within a
    bounded time" is a latency statement about goroutine scheduling that a model cannot give;
@@ -14,7 +14,7 @@ Open Scope Z_scope.
 
 (* "terminates on the client with DEADLINE_EXCEEDED or CANCELLED ... regardless of where it is
    blocked (picking, waiting for stream quota, flow control, receive)": for every blocking
-   point 1..5 and both ways a context becomes done, the blocked call returns (latency 0 in the
+   point 1..6 (6 = a unary RPC stalled in the middle of a response message) and both ways a context becomes done, the blocked call returns (latency 0 in the
    model) with CANCELLED (1) after a cancellation and DEADLINE_EXCEEDED (4) after the deadline *)
 Theorem C22_every_block_has_ctx_partial : forall point kind t d, op_ok [point; kind; t; d] = true ->
   exists o, run_op [point; kind; t; d] = Some o /\
@@ -22,6 +22,13 @@ Theorem C22_every_block_has_ctx_partial : forall point kind t d, op_ok [point; k
     nth 1 o 0 = 0.
 Proof. exact every_block_has_ctx. Qed.
 Print Assumptions C22_every_block_has_ctx_partial.
+
+(* the sixth blocking point spelled out: the unary RPC waiting for the rest of a message payload
+   ends with the context's status at latency 0, and the peer is told (RST_STREAM, last field) *)
+Theorem C22_mid_message_block_partial : forall kind t d, op_ok [6; kind; t; d] = true ->
+  run_op [6; kind; t; d] = Some [status_of kind; 0; 0; 0; 1].
+Proof. exact mid_message_block. Qed.
+Print Assumptions C22_mid_message_block_partial.
 
 (* "The server handler's context carries a deadline no earlier than the client's remaining
    time at send": for every remaining time d (ns) that fits an int64 the handler's timeout
@@ -39,8 +46,10 @@ Proof. exact model_trace_holds. Qed.
 Print Assumptions C22_holds_on_every_model_trace.
 
 (* non-vacuity: a 100000001 ns timeout is sent as "100001u": the handler's deadline is 999 ns
-   later than the client's; an RPC blocked in pick never reaches the server *)
+   later than the client's; an RPC blocked in pick never reaches the server; a timeout of exactly
+   10^8 ns does not fit 8 digits and is sent as "100000u", exactly (delta 0) *)
 Example C22_witness :
-  run [] [[5; 2; 1000000; 100000001]; [1; 1; 1000000; 1234567]] = Some [[4; 0; 1; 999; 1]; [1; 0; 0; 0; 0]] /\
-  forallb op_ok [[5; 2; 1000000; 100000001]; [1; 1; 1000000; 1234567]] = true.
+  run [] [[5; 2; 1000000; 100000001]; [1; 1; 1000000; 1234567]; [4; 2; 1000000; 100000000]; [6; 1; 5; 100000000000]]
+    = Some [[4; 0; 1; 999; 1]; [1; 0; 0; 0; 0]; [4; 0; 1; 0; 1]; [1; 0; 0; 0; 1]] /\
+  forallb op_ok [[5; 2; 1000000; 100000001]; [1; 1; 1000000; 1234567]; [4; 2; 1000000; 100000000]; [6; 1; 5; 100000000000]] = true.
 Proof. vm_compute. split; reflexivity. Qed.
